@@ -57,6 +57,9 @@ unsigned long alloc_count();       // allocations seen since arm/reset
 void reset_alloc_count();
 void stage(const char* what);      // progress marker (shared with the supervising parent)
 void stage(const std::string& what);
+// Deterministic triage class of an object that fails OK(), computed from its ascii_dump
+// ("" if the dump is not one the classifier knows).
+std::string classify_not_ok(const std::string& ascii_dump);
 
 inline std::string demangle(const char* n) { int st = 0; char* d = abi::__cxa_demangle(n, 0, 0, &st); std::string s = (st == 0 && d) ? d : n; free(d); return s; }
 inline std::string exc_class(const std::exception& e) {
@@ -126,7 +129,7 @@ struct Ctx {
     std::string w(what);
     try {
       stage("OK " + w);
-      if (!x.OK()) { fail("not_OK", w + ".OK() is false after the exceptional exit"); return; }
+      if (!x.OK()) { std::ostringstream d; x.ascii_dump(d); std::string cl = classify_not_ok(d.str()); fail("not_OK" + (cl.empty() ? cl : ":" + cl), w + ".OK() is false after the exceptional exit; ascii_dump: " + d.str().substr(0, 1800)); return; }
       stage("copy+use " + w);
       { T c(x); use(c); if (!c.OK()) { fail("not_OK", "copy of " + w + " not OK() after a small computation"); return; } }
       stage("assign " + w);
